@@ -118,6 +118,16 @@ def value_expr(draw, nm, allow_dot=True):
 
 @st.composite
 def gen_operand(draw, nm, allow_dot=True):
+    op = draw(gen_operand_plain(nm, allow_dot))
+    if getattr(nm, "regs", None) and op[0] in ("reg", "ind", "inc", "incd", "dec", "decd", "idx", "idxd") and isinstance(op[1], int) and op[1] in nm.regs \
+            and draw(st.integers(0, 7)) == 0:
+        # the register number spelled as '%symbol' (defined before or after the use)
+        op = (op[0], ("sym", nm.regs[op[1]])) + tuple(op[2:])
+    return op
+
+
+@st.composite
+def gen_operand_plain(draw, nm, allow_dot=True):
     k = draw(st.integers(0, 11))
     if k < 4:
         return draw(st.sampled_from(GEN_OPS))
@@ -369,6 +379,8 @@ def file_body(draw, nm, opts, tag):
         kk = draw(st.integers(-8, 8))
         e = lab if kk == 0 else ("bin", "+" if kk > 0 else "-", lab, ("num", abs(kk)))
         cdefs.append({"k": "assign", "name": a, "e": e, "export": a in opts.get("exported", ())})
+    for n, name in sorted(getattr(nm, "regs", {}).items()):
+        cdefs.append({"k": "assign", "name": name, "e": ("num", n)})
     alldefs = defs + cdefs
     pos = [draw(st.integers(0, len(stmts))) for _ in alldefs]
     # insert at top level only (never inside a .repeat body): positions index the top-level list
@@ -401,6 +413,8 @@ def program_st(draw, **opts):
         ext_c = [x for g, (t, c, l, e, a) in enumerate(plan) if g != f for x in e if x in c]
         ext_l = [x for g, (t, c, l, e, a) in enumerate(plan) if g != f for x in e if x in l]
         nm = Names(consts, labels, ext_c, ext_l, aconsts)
+        if opts.get("dyn_regs"):
+            nm.regs = {n: f"rq{tag}{n}" for n in range(6)}
         o = dict(opts)
         o["exported"] = set(exp)
         body = draw(file_body(nm, o, tag))
